@@ -114,6 +114,26 @@ impl<'ast> Visit<'ast> for LoopFinder {
                 }
             }
         }
+        // D4: RECV.for_each(|PAT| BODY)   (RECV ends in `.iter()`, body has no return/break/continue/?)
+        if e.method == "for_each" && e.args.len() == 1 {
+            if let (syn::Expr::Closure(c), syn::Expr::MethodCall(inner)) = (&e.args[0], &*e.receiver) {
+                if inner.method == "iter" && inner.args.is_empty() && c.inputs.len() == 1 {
+                    let mut ef = EscapeFinder::default();
+                    ef.visit_expr(&c.body);
+                    if ef.escapes == 0 {
+                        let call = e.span().byte_range();
+                        let recv = e.receiver.span().byte_range();
+                        let pat = c.inputs[0].span().byte_range();
+                        let body = c.body.span().byte_range();
+                        let is_block = matches!(&*c.body, syn::Expr::Block(_));
+                        self.vd.push(format!(
+                            "{{\"rule\":\"D4\",\"call\":[{},{}],\"recv\":[{},{}],\"pat\":[{},{}],\"body\":[{},{}],\"is_block\":{}}}",
+                            call.start, call.end, recv.start, recv.end, pat.start, pat.end, body.start, body.end, is_block
+                        ));
+                    }
+                }
+            }
+        }
         syn::visit::visit_expr_method_call(self, e);
     }
 }
